@@ -1,4 +1,4 @@
-\* repaired model, base chain 0..1 below the bloom-window boundary (2), 10 operations over 6 block numbers x 3 versions, two-block prune batches; exhaustive (292 013 distinct states)
+\* repaired model, base chain 0..1 below the bloom-window boundary (2), 13 operations over 6 block numbers x 3 versions, two-block prune batches; exhaustive: 775 134 distinct states (6 879 902 generated), 97 s on 8 workers
 CONSTANTS
   MaxH = 5
   MaxVer = 3
